@@ -40,6 +40,11 @@ where
     if !normalization.is_normal() || !normalization.is_sign_positive() {
         return Err(());
     }
+    // A negative (or NaN) entry can hide behind a positive sum and would make the resulting
+    // cumulative distribution function non-monotonic.
+    if probabilities.iter().any(|probability| !(*probability >= F::zero())) {
+        return Err(());
+    }
     let scale = AsPrimitive::<F>::as_(free_weight.as_()) / normalization;
 
     let mut cumulative_float = F::zero();
